@@ -100,8 +100,13 @@ def items(tier):
     for k in range(len(seq.F_PROGRAMS)):
         out.append((i, 'sweepF', k))
         i += 1
-    nX = len(c08.programs())
-    for k in range(5, nX, 29 if tier == 'quick' else 7):
+    xprogs = c08.programs()
+    nX = len(xprogs)
+    picked = set(range(5, nX, 29 if tier == 'quick' else 7))
+    # every scope kind with a dynamically sized array (the room check of dynamic arrays depends on the stack size), chosen by
+    # what the program contains, not by its position in the list
+    picked |= {k for k, (key, _) in enumerate(xprogs) if key[1] in ('vla', 'vla_nested') and key[2] in ('fall', 'ret')}
+    for k in sorted(picked):
         out.append((i, 'sweepX', k))
         i += 1
     # (c) word sizes
@@ -354,7 +359,7 @@ def coverage(total, tier):
         'reproducibility': f'{len(seeds())} seed programs (all examples and one program of every generated family) x checked/unchecked x W 2,4, compiled twice '
                            'in-process and in a fresh process per PYTHONHASHSEED in ' + ('0..15' if tier == 'quick' else '0..63 plus two random seeds')
                            + ' (bound on the hash-seed dimension: not all 2^32 seeds)',
-        'stack_monotonicity': 'full sweeps (every size from 1 word to S_min+8, then 256 and 1024) of S batches, all F programs and X programs',
+        'stack_monotonicity': 'full sweeps (every size from 1 word to S_min+8, then 256 and 1024) of S batches, all F programs, every X program of C08 with a dynamic array left by falling through / returning, and every 29th (thorough: 7th) other X program',
         'maximum_stack': 'two programs using global and argv arrays of every element type at the 13 largest legal stack sizes and around half of it (W=2)',
         'word_size_monotonicity': 'E, S batches and F programs at W 2,3,4,8 on runs whose 16-bit reference execution never wraps a value',
         'lint': 'S batches, all seed programs and every body of family B (C16) up to size ' + ('3' if tier == 'quick' else '4 (every 3rd of size 4)') + ' printed without statement markers: a compiler diagnostic or byte-identical assembly',
